@@ -46,3 +46,10 @@ Proof.
     - exact H. }
   apply G. unfold cctx_wf, cctx_init. simpl. auto.
 Qed.
+
+Theorem cbegin_after_any_history ops level cap :
+  FD_maxFHSize <= cap ->
+  let c := fold_left cstep ops cctx_init in
+  let '(c', r) := cbegin c level cap in
+  r = 0 /\ cend_ok c' level = true /\ cctx_wf c' /\ cstage_check c' = 0.
+Proof. intro H. apply cbegin_ok; [apply chistory_wf|exact H]. Qed.
